@@ -1,4 +1,5 @@
 from datetime import datetime
+import itertools
 import operator
 try:
     from functools import lru_cache
@@ -256,7 +257,10 @@ def parse_filter(filter):
 
 ## --- Generate python to apply filter
 FILTER_CACHE_LRU_SIZE = 500
-_id_function = 0
+# Source of unique names for the generated functions.  next() on a count is
+# atomic, unlike reading a global and incrementing it later: two threads
+# compiling filters at the same time must never get the same name.
+_id_function = itertools.count()
 
 
 class _NotFoundValue():
@@ -371,13 +375,11 @@ class _FnWrapper():
 
 @lru_cache(maxsize=FILTER_CACHE_LRU_SIZE)
 def _filter_function(filter):
-    global _id_function
     consts = []
     def_filter = _generate_filter_in_python(parse_filter(filter)._head, [], consts)
-    fun_name = "_gen_hsfilter_" + str(_id_function)
+    fun_name = "_gen_hsfilter_" + str(next(_id_function))
     function_template = "def %s(_grid, _entity, _consts=()):\n  return " % fun_name + "".join(def_filter)
     print("\nGenerate:\n# " + filter + "\n" + function_template)  # FIXME: debug
-    _id_function += 1
     return _FnWrapper(fun_name, function_template, consts)
 
 
